@@ -70,25 +70,22 @@ Print Assumptions c14_dest_abandon_is_final.
    the handler is idle with fresh parameters (the transaction was completed in the call: unacknowledged mode without
    closure, or the Finished ACK arrived; or it was abandoned).  The Finished PDU carries the condition of the indication
    (c15_completion_reports_finished_pdu).
-   "Reports c" has a second alternative, which is real in the model (FaultTableProofs.Examples.
-   cancel_condition_overwritten_by_verification): No Error with delivery code Data Complete, when a checksum verification
-   SUCCEEDS after the fault in the same call — a File Data PDU that closes the last gap and at the same time reaches beyond
-   the EOF's file size, in a state whose lost-segment bookkeeping lets the gap be closed by such a PDU.  No history from a
-   fresh handler is known that reaches such a state (informally: with the handler "cancel" the first PDU reaching beyond
-   the file size cancels and completes the transaction, before the bookkeeping can move beyond the file size), so this is
-   recorded as an observation about the model, not as a finding.
+   Statement strengthened with the F35 repair: before it "reports c" had a second alternative, No Error with delivery code
+   Data Complete (a checksum verification succeeding after the fault in the same call: the deferred procedure ran after a
+   File Data PDU that closed the last gap and reached beyond the EOF's file size) - that was defect F35
+   (FaultTableProofs.Examples.cancel_condition_stands_after_gap_closed shows the run from a fresh handler and its new
+   outcome).  The deferred procedure now leaves a cancelled transaction alone (c14_dest_deferred_cancelled_noop).
    The theorem holds for every state and every PDU. *)
 Definition is_cancel (e : event) : bool := match e with EvFault k _ _ _ _ => k =? FH_CANCEL | _ => false end.
-Definition cond_ok (c cd dl : Z) : Prop := cd = c \/ (cd = C_NO_ERROR /\ dl = DATA_COMPLETE).
 Definition cancelling (c : Z) (s : dst) : Prop :=
-  p_disp (d_p s) = DISP_CANCELED /\ cond_ok c (f_cond (p_fin (d_p s))) (f_deliv (p_fin (d_p s))).
+  p_disp (d_p s) = DISP_CANCELED /\ f_cond (p_fin (d_p s)) = c.
 Definition dfresh (s : dst) : Prop := d_state s = ST_IDLE /\ d_step s = DS_IDLE /\ d_p s = fresh_params.
 
 Theorem c14_dest_cancel_condition_reported : forall pkt s,
   exists new, log_d (fst (Dest.state_machine pkt s)) = new ++ log_d s /\
     forall newer a b c prog older,
       new = newer ++ EvFault FH_CANCEL a b c prog :: older -> (forall e, In e newer -> is_cancel e = false) ->
-      (forall a' b' cd dl fs fl, In (EvFinished a' b' cd dl fs fl) newer -> cond_ok c cd dl) /\
+      (forall a' b' cd dl fs fl, In (EvFinished a' b' cd dl fs fl) newer -> cd = c) /\
       (cancelling c (fst (Dest.state_machine pkt s)) \/ dfresh (fst (Dest.state_machine pkt s))).
 Proof. exact dest_cancel_condition_reported. Qed.
 Print Assumptions c14_dest_cancel_condition_reported.
@@ -108,7 +105,7 @@ Fixpoint fins_ok (m0 : option Z) (new : list event) : Prop :=
   | e :: older =>
       fins_ok m0 older /\
       match e with
-      | EvFinished _ _ cd dl _ _ => match mode_after m0 older with Some c => cond_ok c cd dl | None => True end
+      | EvFinished _ _ cd _ _ _ => match mode_after m0 older with Some c => cd = c | None => True end
       | _ => True
       end
   end.
@@ -118,6 +115,12 @@ Definition dest_cancel_post (s s' : dst) : Prop :=
 Theorem c14_dest_cancel_post : forall pkt s, dest_cancel_post s (fst (Dest.state_machine pkt s)).
 Proof. exact dest_state_machine_cancel_post. Qed.
 Print Assumptions c14_dest_cancel_post.
+
+(* a cancelled transaction: the deferred lost-segment procedure does nothing, the cancel condition stands (F35 repair) *)
+Theorem c14_dest_deferred_cancelled_noop : forall s,
+  p_disp (d_p s) = DISP_CANCELED -> deferred_lost_segment_handling s = (s, Ok tt).
+Proof. exact deferred_cancelled_noop. Qed.
+Print Assumptions c14_dest_deferred_cancelled_noop.
 
 (* (4) "no call delivers two callbacks with the same condition" is FALSE for the receiver with a check timer interval of 0
    (FaultTableProofs.Examples.dest_same_condition_twice_with_zero_check_interval, from a fresh handler: the verification
